@@ -210,8 +210,8 @@ mod verif_c05 {
         if key.is_some() {
             assert!(unknown_logged(b"zq"));
         } else {
-            // no key was recorded: the placeholder name is used, the document is still rejected
-            assert!(n() == 1 && matches!(at(0), Ev::UnknownField(9, b'<', b'u', 1)));
+            // no key was recorded: some placeholder name is used (its text is not part of the property), the document is still rejected
+            assert!(n() == 1 && matches!(at(0), Ev::UnknownField(_, _, _, 1)));
         }
         std::mem::forget(key);
         kani::cover!(true);
